@@ -126,7 +126,7 @@ def _run_scenario(scn, want_events=True, twin_fin=None):
     Zf = np.array(scn["Z"], dtype=float)
     sub = lambda rws, role: (H.present_values(Zf[rws], roles[role]) if role in roles else Z[rws].copy())
     Xtr = sub(I_train, "train")
-    Ytr = np.array(scn["Y"], dtype=int) + int(scn.get("label_offset", 0))      # class labels need not start at 0
+    Ytr = np.array(scn["Y"], dtype=int) + H.derive_label_offset(scn)      # class labels need not start at 0 (nor be small)
     Xu = sub(U, "unl") if U else np.zeros((0, Z.shape[1]))
     Xq_all = sub(Q, "query") if Q else None
     passI = scn.get("pass_I", scn["mode"] in ("pre", "prefile"))
@@ -561,8 +561,8 @@ def random_float_scenario(rng, kind="sup", metric="euclidean", n=None, nu=0, nq=
     return scn
 
 
-def extreme_unit_scenarios(rng, count, kind="sup", nq=2, nu=0, metrics=("euclidean", "manhattan", "chebyshev"), scales=(2.0 ** -73, 2.0 ** -330, 2.0 ** 60, 1e-22)):
-    """Dissimilarities in very small / very large units: features scaled by an exact power of two (2**-73, 2**-330, 2**60), or shifted by
+def extreme_unit_scenarios(rng, count, kind="sup", nq=2, nu=0, metrics=("euclidean", "manhattan", "chebyshev"), scales=(2.0 ** -73, 2.0 ** -330, 2.0 ** 60, 1e-22, 2.0 ** 130)):
+    """Dissimilarities in very small / very large units: features scaled by an exact power of two (2**-73, 2**-330, 2**60, 2**130: distances beyond the single-precision range), or shifted by
     a large common offset (2**25), under
     the positively homogeneous metrics, half of them through a pre-computed matrix (every second of those scaled once more).
     Weights that differ, differ - however small the difference is in absolute terms."""
